@@ -17,11 +17,15 @@ deriving DecidableEq, Repr
 inductive Ev
   | lab (l : Label)                       -- a transition of the model
   | fan (i : Nat) (p : Option Nat) (sendOk flushOk : Bool)  -- a fan-out step, with the message seen
+  | at (t : Int) (e : Ev)                 -- a loop event stamped with what the injected clock showed the replayer
   | subRet (i : Nat) (r : String)         -- Subscribe returned r: checked against the model's pc
   | pubRet (p : Nat) (r : String)
   | shutRet (k : Nat) (r : String)
   | skip
 deriving Repr
+
+instance : Inhabited Proc := ⟨.loop⟩
+instance : Inhabited Ev := ⟨.skip⟩
 
 structure Scenario where
   rep : String := "none"
@@ -29,6 +33,7 @@ structure Scenario where
   subTopics : List (List Nat) := []
   subLast : List String := []
   pubTopics : List (List Nat) := []
+  pubBad : List Bool := []
 deriving Repr
 
 def natsOf (s : String) : List Nat :=
@@ -44,7 +49,8 @@ def parseScenario (s : String) : Scenario :=
   { rep := get "rep", auto := get "auto" == "1",
     subTopics := subs.map fun f => natsOf (f.headD ""),
     subLast := subs.map fun f => (f.drop 1).headD "-",
-    pubTopics := (items (get "pubs")).map fun x => natsOf ((x.splitOn "/").headD "") }
+    pubTopics := (items (get "pubs")).map fun x => natsOf ((x.splitOn "/").headD ""),
+    pubBad := (items (get "pubs")).map fun x => ((x.splitOn "/").drop 2).headD "0" == "1" }
 
 def numAfter (s : String) (n : Nat) : Nat := ((s.drop n).toString.toNat?).getD 0
 
@@ -58,7 +64,12 @@ def parseCalls (s : String) : List Call :=
     | [a, ok] => if a.startsWith "wf" then some (.flush (ok == "1")) else none
     | _ => none
 
-def parseEv (s : String) : Proc × Ev :=
+partial def parseEv (s : String) : Proc × Ev :=
+  match s.splitOn "@" with
+  | [body, t] =>
+    let r := parseEv body
+    (r.1, .at ((parseInt? t).getD 0) r.2)
+  | _ =>
   let f := s.splitOn ":"
   let h := f.headD ""
   let tag := (h.take 2).toString
@@ -136,6 +147,7 @@ def applyEv (c : Cfg) (s : St) : Ev → Option St
     | .returned e => if errStr e == r then some s else none
     | _ => none
   | .skip => some s
+  | .at _ e => applyEv c s e
 
 /-- Trace inclusion with deferral: repeatedly take the first pending event that is enabled and
 is the earliest pending event of its own goroutine. -/
@@ -160,23 +172,26 @@ def pushStore (cap : Nat) (store : List Nat) (p : Nat) : List Nat :=
   let s := store ++ [p]
   s.drop (s.length - cap)
 
-/-- what a conforming replayer sends for a presented ID: the stored publications after it -/
-def candidates (auto : Bool) (log store : List Nat) (last : String) : List Nat :=
-  if last == "-" || last == "x" then [] else
+/-- What a conforming replayer sends for a presented ID: the stored publications after it.
+`okLog` = the publications the replayer accepted, in order (automatic ID k denotes `okLog[k]`);
+`store` = what it still holds. `none` = the presented ID is not of a currently held publication,
+so the property (C04: "presents the ID of a buffered event") does not say what is replayed. -/
+def candidates (auto : Bool) (okLog store : List Nat) (last : String) : Option (List Nat) :=
+  if last == "-" then some [] else
+  if last == "x" then (if auto then none else some []) else
   let k := numAfter last 1
-  if auto then
-    -- automatic IDs: the ID k denotes the k-th accepted publication; an ID below the oldest stored
-    -- one replays everything stored (recorded reading, DESIGN §6/C08)
-    match log[k]? with
-    | some p => if store.contains p then (store.dropWhile (· != p)).drop 1 else
-                  if store.isEmpty then [] else store
-    | none => []
-  else
-    if store.contains k then (store.dropWhile (· != k)).drop 1 else []
+  let p? : Option Nat := if auto then okLog[k]? else some k
+  match p? with
+  | some p => if store.contains p then some ((store.dropWhile (· != p)).drop 1)
+              else if auto then none else (if okLog.contains p then none else some [])
+  | none => if auto then none else some []
 
 structure Obs where
   log : List Nat := []
+  okLog : List Nat := []
   store : List Nat := []
+  exps : List (Nat × Int) := []      -- expiry instants (ValidReplayer)
+  now : Int := 0
   fanCur : Option Nat := none
   /-- per sub: (registered at log length, end at log length, live sends seen, replayed calls, failed) -/
   reg : List (Nat × Nat) := []
@@ -188,6 +203,7 @@ structure Obs where
   ownFailed : List Nat := []
   faults : Bool := false
   exited : Bool := false
+  pubRets : List (Nat × String) := []
 
 def intersects (a b : List Nat) : Bool := a.any fun x => b.contains x
 
@@ -197,8 +213,17 @@ def judge (sc : Scenario) (evs : List (Proc × Ev)) : List String :=
   let cap : Option Nat := match sc.rep.splitOn ":" with
     | ["finite", n] => n.toNat?
     | _ => none
+  let ttl : Option Int := match sc.rep.splitOn ":" with
+    | ["valid", n] => n.toNat?.map fun k => (k : Int) * 1000
+    | _ => none
+  let real := cap.isSome || ttl.isSome
+  -- flatten clock stamps
+  let evs : List (Proc × Ev × Option Int) := evs.map fun pe => match pe.2 with
+    | .at t e => (pe.1, e, some t)
+    | e => (pe.1, e, none)
   let o : Obs := evs.foldl (fun o pe =>
-    match pe.2 with
+    let o := match pe.2.2 with | some t => { o with now := t } | none => o
+    match pe.2.1 with
     | .lab (.subAccept i rc ro) =>
       let o := if ro != .ok then { o with faults := true } else o
       -- C04: what was replayed
@@ -206,15 +231,24 @@ def judge (sc : Scenario) (evs : List (Proc × Ev)) : List String :=
       let anyFail := rc.any fun c => match c with | .send _ ok => !ok | .flush ok => !ok
       let o := if sends.contains unknownPub then
           { o with viol := s!"C04:sub{i} was replayed a message that no Put returned" :: o.viol } else o
-      let o := match cap with
-        | some _ =>
-          let want := (candidates sc.auto o.log o.store ((sc.subLast[i]?).getD "-")).filter fun p =>
-            intersects ((sc.subTopics[i]?).getD []) ((sc.pubTopics[p]?).getD [])
-          if (!anyFail && sends != want) || (anyFail && !(sends.isPrefixOf want)) then
-            { o with viol := s!"C04:sub{i} replayed {sends}, expected {want} (store {o.store}, presented {(sc.subLast[i]?).getD "-"})" :: o.viol }
-          else o
-        | none =>
-          if !rc.isEmpty && sc.rep != "none" && !sc.rep.startsWith "finite" then
+      let o := if real then
+          -- what is held and unexpired right now
+          let held := o.store.filter fun p => match ttl with
+            | some _ => (((o.exps.find? (·.1 == p)).map (·.2)).getD 0) > o.now
+            | none => true
+          let last := (sc.subLast[i]?).getD "-"
+          -- the presented publication itself must still be held and unexpired for the property to speak
+          let presentedOK : Bool := match candidates sc.auto o.okLog held last with | some _ => true | none => false
+          match candidates sc.auto o.okLog o.store last, presentedOK with
+          | some after, true =>
+            let want := (after.filter fun p => held.contains p).filter fun p =>
+              intersects ((sc.subTopics[i]?).getD []) ((sc.pubTopics[p]?).getD [])
+            if (!anyFail && sends != want) || (anyFail && !(sends.isPrefixOf want)) then
+              { o with viol := s!"C04:sub{i} replayed {sends}, expected {want} (held {held}, presented {last})" :: o.viol }
+            else o
+          | _, _ => o
+        else
+          if !rc.isEmpty && sc.rep != "none" then
             { o with viol := s!"C04:sub{i} got replay calls from a replayer that replays nothing" :: o.viol } else o
       let o := if anyFail then { o with ownFailed := i :: o.ownFailed, faults := true } else o
       if ro == .err then o else { o with reg := (i, o.log.length) :: o.reg }
@@ -224,7 +258,11 @@ def judge (sc : Scenario) (evs : List (Proc × Ev)) : List String :=
         | some c, .ok _ => pushStore c o.store p
         | none, .ok _ => if sc.rep == "none" then o.store else o.store ++ [p]
         | _, _ => o.store
-      { o with log := o.log ++ [p], store := store, fanCur := some p }
+      let isOk := match po with | .ok _ => true | _ => false
+      let exps := match ttl with
+        | some t => if isOk then (p, o.now + t) :: o.exps else o.exps
+        | none => o.exps
+      { o with log := o.log ++ [p], okLog := if isOk then o.okLog ++ [p] else o.okLog, store := store, exps := exps, fanCur := some p }
     | .fan i p sendOk flushOk =>
       let o := match p with
         | some q => { o with live := o.live ++ [(i, q)] }
@@ -238,12 +276,7 @@ def judge (sc : Scenario) (evs : List (Proc × Ev)) : List String :=
       let open' := o.reg.filter fun r => (o.ended.find? (·.1 == r.1)).isNone
       { o with ended := open'.map (fun r => (r.1, o.log.length)) ++ o.ended, exited := true }
     | .lab (.cancel i) => { o with cancelled := i :: o.cancelled }
-    | .pubRet p r =>
-      -- a Publish that returned nil or the replayer's error was accepted by the loop (and so delivered)
-      if (r == "nil" || r == "put") && !o.log.contains p then
-        let tag := if r == "put" then "C17" else "C03"
-        { o with viol := s!"{tag}:Publish of pub{p} returned {r} but Joe never accepted the message for delivery" :: o.viol }
-      else o
+    | .pubRet p r => { o with pubRets := (p, r) :: o.pubRets }
     | .shutRet k r =>
       if r == "nil" && !o.exited then
         { o with viol := s!"C07:Shutdown call {k} returned nil before all subscribers were released" :: o.viol }
@@ -270,7 +303,27 @@ def judge (sc : Scenario) (evs : List (Proc × Ev)) : List String :=
       s!"{tag}:sub{i} was sent {got}, expected {want} (log {o.log}, registered at {r.2}, ended at {endAt})" :: acc) []
   let stray := (o.live.filter fun l => (o.reg.find? (·.1 == l.1)).isNone).map fun l =>
     s!"C03:sub{l.1} was sent {l.2} without being registered"
-  (o.viol ++ perSub ++ stray).reverse
+  -- a Publish that returned nil or the replayer's error was accepted by the loop (and so delivered);
+  -- judged at the end of the trace: Publish may return before the loop's hook is recorded
+  let unaccepted := o.pubRets.filterMap fun pr =>
+    if (pr.2 == "nil" || pr.2 == "put") && !o.log.contains pr.1 then
+      some s!"{if pr.2 == "put" then "C17" else "C03"}:Publish of pub{pr.1} returned {pr.2} but Joe never accepted the message for delivery"
+    else none
+  (o.viol ++ perSub ++ stray ++ unaccepted).reverse
+
+/-- publications that violate the replayer's ID mode must be rejected by Put, all others accepted -/
+def judgePuts (sc : Scenario) (evs : List (Proc × Ev)) : List String :=
+  if !(sc.rep.startsWith "finite" || sc.rep.startsWith "valid") then [] else
+  evs.filterMap fun pe =>
+    let e := match pe.2 with | .at _ e => e | e => e
+    match e with
+    | .lab (.pubAccept p po) =>
+      let bad := (sc.pubBad[p]?).getD false
+      let isOk := match po with | .ok _ => true | _ => false
+      if bad && isOk then some s!"C04:Put accepted pub{p} although it violates the replayer's ID mode"
+      else if !bad && !isOk then some s!"C04:Put rejected the well-formed pub{p}"
+      else none
+    | _ => none
 
 def factsTag (f : String) : List String :=
   if f == "ok" then [] else
@@ -292,7 +345,7 @@ def joe (args : List String) : String × String :=
       let cfg : Cfg := { subTopics := fun i => (sc.subTopics[i]?).getD [], pubTopics := fun p => (sc.pubTopics[p]?).getD [] }
       let init : St := GoSSE.Model.Joe.init (sc.rep != "none")
       let v := validate cfg init evs 0
-      let viol := factsTag facts ++ judge sc evs
+      let viol := factsTag facts ++ judge sc evs ++ judgePuts sc evs
       (v.1, if viol.isEmpty then "ok" else "viol " ++ " ;; ".intercalate viol)
     | _ => ("bad-observation", "bad-observation")
   | none => ("bad-args", "bad-args")
